@@ -189,6 +189,7 @@ Proof.
   pose proof (seek_target_range size pos off wh Hsize) as Hnp. fold np in Hnp.
   rewrite Z.mod_0_l by lia. cbn [Z.eqb negb].
   replace (size - (np + 0)) with (size - np) by lia.
+  destruct (Z.ltb_spec (size - np) 0) as [Hneg|_]; [lia|].
   rewrite (aligned_sub w size np) by (assumption || lia).
   destruct (Z.eqb_spec (np mod w) 0) as [Ha|Ha]; cbn [negb].
   - destruct (Hs ss (size - np) Hgs ltac:(lia)) as (r & ss' & E & G & _). rewrite E.
@@ -220,6 +221,7 @@ Proof.
   set (Lp := logical sub content) in *.
   destruct (Z.eqb_spec (ts mod w) 0) as [Ht|Ht]; cbn [negb andb].
   2:{ exists (SV pos ts ss). cbn [good v_tell]. repeat split; auto; lia. }
+  destruct (Z.ltb_spec (size - (pos + ts)) 0) as [Hneg|_]; [lia|].
   rewrite (aligned_sub w size (pos + ts)) by (assumption || lia).
   destruct (Z.eqb_spec ((pos + ts) mod w) 0) as [Ha|Ha]; cbn [negb].
   2:{ exists (SV pos ts ss). cbn [good v_tell]. repeat split; auto; lia. }
